@@ -19,7 +19,7 @@ from .c12 import Server
 
 MOD = "example.com/m"
 ALL_FILES_STAGES = ["template-missing-all-files", "template-404-all-files"]   # every file of package p shares one template that cannot be retrieved
-STAGES = ["template-missing", "template-404", "template-missing-schema-not-required", "template-404-schema-not-required", "schema-missing", "schema-invalid-iface", "schema-invalid-file", "template-parse", "template-exec", "format"]
+STAGES = ["template-truncated", "template-missing", "template-404", "template-missing-schema-not-required", "template-404-schema-not-required", "schema-missing", "schema-invalid-iface", "schema-invalid-file", "template-parse", "template-exec", "format"]
 STATES = ["absent", "prev-long", "prev-short", "user", "user-marker", "dir"]
 
 BYSTANDERS = {
@@ -111,6 +111,14 @@ def build(case, root, server, with_injection, all_force):
                 ic["template"] = "file://tm/missing.templ"
             elif st == "template-404":
                 ic["template"] = "http://127.0.0.1:%d/nope/%d/t.templ" % (server.http, case["i"])
+            elif st == "template-truncated":
+                # the transfer of the template dies midway (full Content-Length announced, half of the bytes sent, connection closed); the half that
+                # arrives is literal text that would still parse as a template and, under gofmt/noop, still format
+                server.put("tr/%d/t.templ" % case["i"], "package {{.PkgName}}\n\n" + "".join("// literal line %03d of a template that is mostly text\n" % k for k in range(80)) +
+                           "{{range .Interfaces}}type {{.StructName}} struct{}\n{{end}}")
+                ic["template"] = "http://127.0.0.1:%d/trunc/tr/%d/t.templ" % (server.http, case["i"])
+                ic["require-template-schema-exists"] = False
+                ic["formatter"] = "gofmt" if case["formatter"] == "goimports" else case["formatter"]
             elif st == "template-missing-schema-not-required":
                 ic["template"] = "file://tm/missing.templ"
                 ic["require-template-schema-exists"] = False
